@@ -174,14 +174,14 @@ func VerifC25IntDivInt64() {
 
 // Exactness of the quotient: 64-bit symbolic-by-symbolic division does not
 // decide on any back-end (DESIGN §2), so the divisor is enumerated concretely
-// (|r| <= 4, thorough 12) and the dividend is symbolic with |l| < 2^15
-// (thorough 2^31); the quotient is checked by the defining inequalities.
+// (|r| <= 4, thorough 8) and the dividend is symbolic with |l| < 2^15
+// (thorough 2^22); the quotient is checked by the defining inequalities.
 func VerifC25IntDivInt64Exact() {
-	rb := nd.Bound(4, 12)
+	rb := nd.Bound(4, 8)
 	r := int64(nd.IntRange("r", -rb, rb))
 	nd.Assume(r != 0)
 	l := nd.Int64("l")
-	lb := int64(nd.Bound(1<<15, 1<<31))
+	lb := int64(nd.Bound(1<<15, 1<<22))
 	nd.Assume(nd.And(l >= -lb, l < lb))
 	res, err := intDiv(nil, l, r)
 	nd.Reach("c25.intdiv.int64.exact")
